@@ -27,6 +27,7 @@ RULE = (
 )
 ASSUMPTIONS = [
     "Excl: EAPI 8 free-form update file names (no agreed processing order); only [1-4]Q-yyyy names, read with EAPI 7",
+    "an unterminated last line is a normal line; one extra blank line at the end of a file is an empty (skipped) line",
     "Excl: lines with leading/trailing whitespace (logged as an error but processed; the statement does not say whether they count as malformed)",
     "Excl: a slotmove of a name that was first the source of an effective move and later became a move target again "
     "(name reuse is forbidden by PMS; sequential renaming and the 'already moved' rule disagree and the statement is silent) "
@@ -40,9 +41,11 @@ BOUNDS = {
     "quick": "8 valid lines; ordering part: all sequences of <=3 lines x all splits into <=3 non-empty files x all ordered name "
     "subsets of 4 quarter names x all listing orders; chain part: all sequences of 4 lines in 1 file and every 2-file split "
     "over (4Q-2019,1Q-2020); malformed part: 11 malformed kinds inserted at every position of every sequence of <=2 lines; "
-    "empty-file part: sequences of <=2 lines over 3 files with empty files",
+    "empty-file part: sequences of <=2 lines over 3 files with empty files; file-ending part: sequences of <=3 lines in 1 file and "
+    "every 2-file split, every file ending newline-terminated / last line unterminated / extra blank line (not all plain)",
     "thorough": "13 valid lines, 5 quarter names; ordering part <=3 lines (all splits/names/listings) plus 4 lines (8-line alphabet) over the "
-    "name subsets whose lexical and chronological orders differ; chain part 5 lines (8-line alphabet) and 4 lines (13-line alphabet); malformed part over sequences of <=3 lines",
+    "name subsets whose lexical and chronological orders differ; chain part 5 lines (8-line alphabet) and 4 lines (13-line alphabet); malformed part over sequences of <=3 lines; "
+    "file-ending part as quick over the 13-line alphabet",
 }
 
 # ----------------------------------------------------------------------------------------------------------------
@@ -248,12 +251,25 @@ def observe(dirpath, listing):
     return out
 
 
-def write_dir(dirpath, files):
+ENDINGS = ("nl", "none", "blank")  # last line newline-terminated / not terminated / followed by one extra blank line
+
+
+def file_text(lines, ending="nl"):
+    """the bytes of an update file; an unterminated last line is still a line, a trailing blank line is an (ignored) empty line"""
+    text = "".join(l + "\n" for l in lines)
+    if ending == "none" and lines:
+        text = text[:-1]
+    elif ending == "blank":
+        text += "\n"
+    return text
+
+
+def write_dir(dirpath, files, endings=None):
     for fn in os.listdir(dirpath):
         os.unlink(os.path.join(dirpath, fn))
     for name, lines in files.items():
         with open(os.path.join(dirpath, name), "w") as f:
-            f.write("".join(l + "\n" for l in lines))
+            f.write(file_text(lines, (endings or {}).get(name, "nl")))
 
 
 def judge(files, listing, dirpath):
@@ -323,8 +339,8 @@ def dirs_empty(seq, names):
 
 def config(tier):
     if tier == "quick":
-        return dict(valid=VALID_Q, names=NAMES_Q, ord_len=3, ord4=False, chain=[(VALID_Q, 4)], mal_len=2)
-    return dict(valid=VALID_T, names=NAMES_T, ord_len=3, ord4=True, chain=[(VALID_Q, 5), (VALID_T, 4)], mal_len=3)
+        return dict(valid=VALID_Q, names=NAMES_Q, ord_len=3, ord4=False, chain=[(VALID_Q, 4)], mal_len=2, end_len=3)
+    return dict(valid=VALID_T, names=NAMES_T, ord_len=3, ord4=True, chain=[(VALID_Q, 5), (VALID_T, 4)], mal_len=3, end_len=3)
 
 
 def tasks(tier):
@@ -353,11 +369,14 @@ def tasks(tier):
             out.append(("mal", tier, mi, n))
     for first in range(nv):
         out.append(("empty", tier, 2, (first,)))
+    for n in range(1, cfg["end_len"] + 1):
+        for first in range(nv):
+            out.append(("ending", tier, n, (first,)))
     return out
 
 
 def gen(task):
-    """yield (files, listing, malkind)"""
+    """yield (files, listing, malkind, endings)"""
     kind, tier, x, y = task
     cfg = config(tier)
     valid, names = cfg["valid"], cfg["names"]
@@ -368,13 +387,13 @@ def gen(task):
         for rest in itertools.product(range(len(valid)), repeat=n - len(prefix)):
             seq = [valid[i] for i in prefix + rest]
             for files, listing in dirs_all_names(seq, names, only_misordered=(kind == "ord4")):
-                yield files, listing, None
+                yield files, listing, None, None
     elif kind == "chain":
         alpha, n = cfg["chain"][x]
         for rest in itertools.product(range(len(alpha)), repeat=n - 2):
             seq = [alpha[i] for i in y + rest]
             for files, listing in dirs_chain(seq):
-                yield files, listing, None
+                yield files, listing, None, None
     elif kind == "mal":
         mk, mline = MALFORMED[x]
         n = y
@@ -383,21 +402,35 @@ def gen(task):
             for pos in range(n + 1):
                 seq = base[:pos] + [mline] + base[pos:]
                 for files, listing in dirs_chain(seq):
-                    yield files, listing, mk
+                    yield files, listing, mk, None
     elif kind == "empty":
         for n in (1, 2):
             for rest in itertools.product(range(len(valid)), repeat=n - 1):
                 seq = [valid[i] for i in y + rest]
                 for files, listing in dirs_empty(seq, names):
-                    yield files, listing, None
+                    yield files, listing, None, None
+    elif kind == "ending":
+        # file-ending dimension: every file's last line unterminated / followed by a blank line (at least one file not plain)
+        n = x
+        for rest in itertools.product(range(len(valid)), repeat=n - len(y)):
+            seq = [valid[i] for i in y + rest]
+            for files, listing in dirs_chain(seq):
+                for combo in itertools.product(ENDINGS, repeat=len(files)):
+                    if all(c == "nl" for c in combo):
+                        continue
+                    yield files, listing, None, {nm: c for nm, c in zip(files, combo) if c != "nl"}
 
 
-def classify(files, listing, malkind, info, bad):
+def classify(files, listing, malkind, info, bad, endings=None):
     if info["excluded"]:
         return "excluded-slotmove-on-reused-name"
     names = list(files)
     mis = sorted(names) != sorted(names, key=chrono_key)
     tag = "BAD" if bad else "ok"
+    if endings:
+        kinds = "+".join(sorted(set(endings.values())))
+        last_valid = any(files[nm] and ref_parse(files[nm][-1]) is not None for nm, e in endings.items() if e == "none")
+        return f"ending:{kinds}:files{len(names)}:{'last-line-is-command' if last_valid else 'plain'}:{tag}"
     if malkind:
         return f"malformed:{malkind}:{tag}"
     exp = info["exp"]
@@ -416,32 +449,35 @@ def work(task):
     classes = {}
     viol = []
     samples = []
-    last_files = None
+    last_files = last_endings = None
     timeouts = skipped = 0
     try:
-        for files, listing, malkind in gen(task):
+        for files, listing, malkind, endings in gen(task):
             if timeouts >= MAX_TIMEOUTS_PER_TASK:
                 skipped += 1
                 continue
-            if files is not last_files and files != last_files:
-                write_dir(dirpath, files)
-                last_files = files
+            if files is not last_files and files != last_files or endings != last_endings:
+                write_dir(dirpath, files, endings)
+                last_files, last_endings = files, endings
             evals += 1
             msgs, info = judge(files, listing, dirpath)
-            k = classify(files, listing, malkind, info, bool(msgs))
+            if msgs and endings:
+                msgs = [msgs[0] + f" [file endings: {endings}; none = last line without a terminating newline, blank = extra empty line]"]
+            k = classify(files, listing, malkind, info, bool(msgs), endings)
             classes[k] = classes.get(k, 0) + 1
             if msgs:
                 obs = info["obs"]
                 if isinstance(obs, str) and "no-termination" in obs:
                     timeouts += 1
-                viol.append(
-                    {
-                        "files": files,
-                        "listing": listing,
-                        "obs": obs if isinstance(obs, str) else "mapping",
-                        "msg": msgs[0],
-                    }
-                )
+                case = {
+                    "files": files,
+                    "listing": listing,
+                    "obs": obs if isinstance(obs, str) else "mapping",
+                    "msg": msgs[0],
+                }
+                if endings:
+                    case["endings"] = endings
+                viol.append(case)
             elif len(samples) < 1 and len(files) > 1 and not info["excluded"]:
                 samples.append({"files": files, "listing": listing, "result": info["obs"]})
     finally:
@@ -456,8 +492,11 @@ def replay(case):
     try:
         dirpath = os.path.join(root, "updates")
         os.mkdir(dirpath)
-        write_dir(dirpath, case["files"])
+        endings = case.get("endings")
+        write_dir(dirpath, case["files"], endings)
         msgs, _info = judge(case["files"], case["listing"], dirpath)
+        if msgs and endings:
+            msgs = [msgs[0] + f" [file endings: {endings}; none = last line without a terminating newline, blank = extra empty line]"]
         return msgs
     finally:
         shutil.rmtree(root, ignore_errors=True)
@@ -503,7 +542,7 @@ def _lexical_file_order(case):
     try:
         dirpath = os.path.join(root, "updates")
         os.mkdir(dirpath)
-        write_dir(dirpath, files)
+        write_dir(dirpath, files, case.get("endings"))
         obs = observe(dirpath, case["listing"])
     finally:
         shutil.rmtree(root, ignore_errors=True)
